@@ -213,7 +213,7 @@ class Evaluator:
                     return r
             base = self._ev(node.value)
             if isinstance(base, tuple):
-                r = _vec_index(base, node.slice)
+                r = _vec_index(base, node.slice, self)
                 if r is not NotImplemented:
                     return r
             if isinstance(base, tuple) and isinstance(node.slice, ast.Constant) and isinstance(node.slice.value, int):
@@ -384,9 +384,9 @@ class Evaluator:
                 self.env[base] = v
 
 
-def _vec_index(vec, sl):
+def _vec_index(vec, sl, ev=None):
     """index / slice a symbolic 1-D vector (a tuple); a leading full slice (row axis of a 2-D array whose rows are
-    treated alike) is ignored"""
+    treated alike) is ignored.  Bounds must be integer constants - literally, or (with `ev`) names the evaluator holds constants for."""
     if isinstance(sl, ast.Tuple):
         elts = [e for e in sl.elts]
         if elts and isinstance(elts[0], ast.Slice) and elts[0].lower is None and elts[0].upper is None and elts[0].step is None:
@@ -401,7 +401,13 @@ def _vec_index(vec, sl):
         try:
             v = ast.literal_eval(n)
         except Exception:  # noqa
-            raise Unsupported("non-constant slice bound")
+            v = None
+            if ev is not None:
+                r = ev.ev(n)
+                if not is_unknown(r) and not isinstance(r, tuple) and r.is_const() and r.const_value().denominator == 1:
+                    v = int(r.const_value())
+            if v is None:
+                raise Unsupported("non-constant slice bound")
         if not isinstance(v, int):
             raise Unsupported("non-integer slice bound")
         return v
@@ -541,12 +547,27 @@ class AutoEvaluator(Evaluator):
 
     erase_T = False          # matrices as commuting symbols: `.T` is the matrix itself
 
+    forward_stores = False   # a load `X[i]` of a buffer returns the value last stored under the same (evaluated) index
+    loop_unroll = 0          # `for k in range(a, b)` with constant bounds and at most this many iterations is executed iteration by iteration
     loop_once = False        # `for x in it:` - evaluate the body once for a generic iteration (x a symbol): per-iteration stores and calls are recorded
 
     def stmt(self, st):
         if isinstance(st, ast.Expr) and isinstance(st.value, ast.Call) and not self.done:
             self.ev(st.value)          # a call statement: recorded in self.calls (and followed when it is in the inline table)
             return
+        if isinstance(st, ast.For) and self.loop_unroll and not self.done and isinstance(st.target, ast.Name) \
+                and isinstance(st.iter, ast.Call) and dotted(st.iter.func) == "range" and 1 <= len(st.iter.args) <= 2:
+            bounds = [self.ev(a) for a in st.iter.args]
+            if all((not is_unknown(b)) and (not isinstance(b, tuple)) and b.is_const() and b.const_value().denominator == 1 for b in bounds):
+                ks = [int(b.const_value()) for b in bounds]
+                lo, hi = (0, ks[0]) if len(ks) == 1 else ks
+                if hi - lo <= self.loop_unroll:
+                    for k in range(lo, hi):
+                        self.env[st.target.id] = F.const(k)
+                        self.run(st.body)
+                        if self.done:
+                            break
+                    return
         if isinstance(st, ast.For) and self.loop_once and not self.done:
             self.ev(st.iter)
 
@@ -647,6 +668,11 @@ class AutoEvaluator(Evaluator):
                 ix = self._index_value(node.slice)
             except Unsupported as e:
                 return Unknown(str(e))
+            if self.forward_stores and isinstance(node.value, ast.Name) and node.value.id in self.buffers:
+                # store-to-load forwarding: the value last stored under exactly this index
+                for nm, jx, val, _st in reversed(self.cells):
+                    if nm == node.value.id and not is_unknown(jx) and need(jx).equals(need(ix)):
+                        return val
             return F.fn("idx", need(base), ix)
         return super()._ev(node)
 
@@ -692,6 +718,7 @@ class AutoEvaluator(Evaluator):
                             binop=self.binop_hook)
         sub.inline = self.inline
         sub.inline_depth = self.inline_depth + 1
+        sub.loop_unroll, sub.loop_once, sub.forward_stores, sub.erase_T = self.loop_unroll, self.loop_once, self.forward_stores, self.erase_T
         sub.seq = self.seq
         sub.run(fn.body)
         # the callee's calls and stores are part of the caller's trace
